@@ -202,11 +202,27 @@ func (p *ProofD) MergeProofP(proofP *ProofP, _ *gabikeys.PublicKey) {
 	}
 }
 
-func (p *ProofD) reconstructRangeProofStructures(pk *gabikeys.PublicKey) error {
+func (p *ProofD) reconstructRangeProofStructures(pk *gabikeys.PublicKey) (err error) {
 	p.cachedRangeStructures = make(map[int][]*rangeproof.ProofStructure)
+	defer func() {
+		if err != nil {
+			// do not leave a partial cache behind: a later verification of this proof would
+			// otherwise skip the range proofs that were not reached
+			p.cachedRangeStructures = nil
+		}
+	}()
 	for index, proofs := range p.RangeProofs {
+		// A range proof makes a statement about a hidden attribute of this credential. One that is
+		// keyed to an index without a response (disclosed, or not present at all) can neither be
+		// checked nor tied to the credential, so such a proof must be refused rather than skipped.
+		if p.AResponses[index] == nil {
+			return errors.New("range proof for an attribute that is not hidden")
+		}
 		p.cachedRangeStructures[index] = []*rangeproof.ProofStructure{}
 		for _, proof := range proofs {
+			if proof == nil {
+				return errors.New("missing range proof")
+			}
 			s, err := proof.ExtractStructure(index, pk)
 			if err != nil {
 				return err
